@@ -433,15 +433,17 @@ class Combo:
     def live(self, spec):
         if not isinstance(spec, list):
             return spec
+        # the selection is a SET of orbitals: it is handed over in descending order here (the out-of-place copy made just before
+        # got the ascending listing; the two are compared and all bookkeeping below is judged on this object)
         if len(spec) == 2 and all(isinstance(x, list) for x in spec):
             if not hasattr(self, "_live2"):
                 self._live2 = [[], []]
-            self._live2[0][:] = spec[0]
-            self._live2[1][:] = spec[1]
+            self._live2[0][:] = spec[0][::-1]
+            self._live2[1][:] = spec[1][::-1]
             return self._live2
         if not hasattr(self, "_live1"):
             self._live1 = []
-        self._live1[:] = spec
+        self._live1[:] = spec[::-1]
         return self._live1
 
     def _C(self, C):
@@ -492,7 +494,8 @@ class Combo:
         # freeze_mos(inplace=False): the original keeps its (empty) frozen set, the copy describes the same active space
         acc.ev()
         try:
-            same = (cp.active_mos == mol.active_mos and cp.frozen_mos == mol.frozen_mos
+            fsort = (lambda f: [sorted(f[0]), sorted(f[1])] if (f and isinstance(f[0], (list, tuple))) else (sorted(f) if f else f))
+            same = (cp.active_mos == mol.active_mos and fsort(cp.frozen_mos) == fsort(mol.frozen_mos)
                     and tuple(cp.n_active_ab_electrons) == tuple(mol.n_active_ab_electrons)
                     and cp.n_active_sos == mol.n_active_sos)
             if same and "id" in rots:
@@ -511,13 +514,14 @@ class Combo:
         acc.ev()
         try:
             if uhf:
+                # (the frozen lists are sets of orbitals: the order in which they are reported follows the caller's listing)
                 got = {"active": [list(mol.active_mos[0]), list(mol.active_mos[1])],
-                       "frozen_occ": [list(mol.frozen_occupied[0]), list(mol.frozen_occupied[1])],
-                       "frozen_virt": [list(mol.frozen_virtual[0]), list(mol.frozen_virtual[1])]}
+                       "frozen_occ": [sorted(mol.frozen_occupied[0]), sorted(mol.frozen_occupied[1])],
+                       "frozen_virt": [sorted(mol.frozen_virtual[0]), sorted(mol.frozen_virtual[1])]}
                 exp = {k: part[k] for k in got}
             else:
-                got = {"active": list(mol.active_mos), "frozen_occ": list(mol.frozen_occupied),
-                       "frozen_virt": list(mol.frozen_virtual)}
+                got = {"active": list(mol.active_mos), "frozen_occ": sorted(mol.frozen_occupied),
+                       "frozen_virt": sorted(mol.frozen_virtual)}
                 exp = {k: part[k][0] for k in got}
             got["nelec"] = [int(x) for x in mol.n_active_ab_electrons]
             exp["nelec"] = [n_alpha, n_beta]
@@ -762,6 +766,10 @@ def shards(tier, seed):
                 else:
                     sh.append({"kind": name, "geom": gi, "uhf": uhf, "seed": seed, "tier": tier,
                                "pat": list(range(len(pats)))})
+    for name, frozen in (("H2", None), ("H3", [2]), ("H4chain", [0, 3]), ("H4triplet", 1), ("LiH", [0, 4, 5])):
+        for uhf in (False, True):
+            sh.append({"kind": "shared-solver", "mol": name, "frozen": (frozen if not (uhf and isinstance(frozen, list)) else [frozen, frozen]),
+                       "uhf": uhf, "seed": seed, "tier": tier})
     # longest first
     wt = {"H2O": 9, "LiH": 8, "H4chain": 4, "H4rect": 4, "H4triplet": 4, "H2_631g": 3}
     sh.sort(key=lambda s: -wt.get(s["kind"], 0))
@@ -770,6 +778,44 @@ def shards(tier, seed):
 
 class ConstructionFailed(Exception):
     pass
+
+
+def check_shared_solver(case, acc):
+    """History on ONE integral-solver object: it builds a molecule at geometry A (Hamiltonian evaluated), then a molecule at geometry
+    B (and with another frozen selection); the second molecule must have the Hamiltonian and mean-field energy of a molecule built with
+    a solver of its own."""
+    from tangelo import SecondQuantizedMolecule
+    from tangelo.toolboxes.molecular_computation.integral_solver_pyscf import IntegralSolverPySCF
+    name, uhf, seed = case["mol"], case["uhf"], case["seed"]
+    q, spin, basis, _ = MOLS[name]
+    sig = f"{name}:{'uhf' if uhf else 'r'}"
+
+    def mk(gi, frozen, solver=None):
+        kw = {} if solver is None else {"solver": solver}
+        with quiet_fds():
+            return SecondQuantizedMolecule(geometry(name, gi, seed), q=q, spin=spin, basis=basis, frozen_orbitals=frozen,
+                                           uhf=uhf, symmetry=False, **kw)
+    acc.states += 1
+    acc.transitions += 3
+    try:
+        shared = IntegralSolverPySCF()
+        a = mk(0, None, shared)
+        _ = a.fermionic_hamiltonian
+        b = mk(1, case["frozen"], shared)
+        hb = dict(b.fermionic_hamiltonian.terms)
+        ref = mk(1, case["frozen"])
+        hr = dict(ref.fermionic_hamiltonian.terms)
+    except Exception as e:
+        acc.violation(f"shared-solver/exception/{sig}", case, {"err": repr(e)[:300]}, group="shared-solver/exception")
+        return
+    acc.ev()
+    acc.nt(("shared-solver", name, uhf, repr(case["frozen"])))
+    d = max([abs(hb.get(k, 0) - hr.get(k, 0)) for k in set(hb) | set(hr)] + [0.0])
+    if d > 1e-8 or abs(float(b.mf_energy) - float(ref.mf_energy)) > 1e-8:
+        acc.violation(f"shared-solver/second-molecule-differs-from-one-built-with-its-own-solver/{sig}", case,
+                      {"max_term_difference": float(d), "mf_energy": [float(b.mf_energy), float(ref.mf_energy)]},
+                      group="shared-solver/second-molecule-differs")
+    acc.out(("shared-solver", name, round(float(ref.mf_energy), 6)))
 
 
 def make_combo(name, gi, uhf, seed, acc):
@@ -796,6 +842,9 @@ def make_combo(name, gi, uhf, seed, acc):
 
 def run_shard(sh):
     acc = Acc()
+    if sh["kind"] == "shared-solver":
+        check_shared_solver({"kind": "shared-solver", "mol": sh["mol"], "frozen": sh["frozen"], "uhf": sh["uhf"], "seed": sh["seed"]}, acc)
+        return acc
     try:
         cb = make_combo(sh["kind"], sh["geom"], sh["uhf"], sh["seed"], acc)
     except ConstructionFailed:
@@ -809,6 +858,9 @@ def run_shard(sh):
 
 def replay_case(case):
     acc = Acc()
+    if case.get("kind") == "shared-solver":
+        check_shared_solver(case, acc)
+        return acc
     try:
         cb = make_combo(case["mol"], case["geom"], case["uhf"], case["seed"], acc)
     except ConstructionFailed:
